@@ -43,7 +43,7 @@ impl Scenario {
             "label": self.label,
             "channels": self.audio.channels, "bps": self.audio.bps, "len": self.audio.frames(), "signal": self.audio.recipe,
             "pcm_hash": format!("{:016x}", prng::hash_i32s(&self.audio.samples)),
-            "block": self.block, "frames": (self.audio.frames() + self.block - 1) / self.block,
+            "block": self.block, "frames": self.audio.frames().div_ceil(self.block.max(1)),
             "workers": self.workers, "env_FLACENC_WORKERS": self.env, "policy": format!("{:?}", self.policy),
             "faults": format!("{:?}", self.faults), "fill": format!("{:?}", self.mode), "config": gen::describe_config(&self.cfg), "short_read_every": self.short_reads, "bare_eof": self.bare_eof, "empty_fill_every": self.empty_fill_every, "read_error_flavour": self.err_flavour % gen::ERR_FLAVOURS,
         })
@@ -336,6 +336,10 @@ pub fn gen_c06(seed: u64, tier: Tier, sub: &str, idx: u64) -> Scenario {
     let audio = mixed_cost_audio(&mut rng, channels, bps, block, 0, len);
     let mut cfg = gen::gen_config(&mut rng, &ConfigOpts { multithread: Some(true), min_max_parameter: 6, no_experimental: false });
     cfg.block_size = block;
+    // 'refused': a fault-free source and a block-size argument the call must refuse (the failure
+    // is the caller's argument, not the source): same outcome kind in both thread modes, and -
+    // like after any return - no helper thread left behind or panicking afterwards
+    let (block, label) = if sub == "refused" { let b = [0usize, 1, 15, 16, 31, 32768, 40000, 65536, usize::MAX][(idx % 9) as usize]; (b, format!("refused block={b} ({label})")) } else { (block, label) };
     Scenario {
         audio: Arc::new(audio),
         cfg,
@@ -347,7 +351,9 @@ pub fn gen_c06(seed: u64, tier: Tier, sub: &str, idx: u64) -> Scenario {
         mode: FillMode::Int,
         hint: rng.flip(),
         label,
-        short_reads: 0,
+        // one fault-free scenario in five reads from a pipe-style source (a short block between
+        // full ones): every block delivered must still come out as a frame, exactly once
+        short_reads: if sub == "faultfree" && idx % 5 == 1 { 2 + (idx as usize / 5) % 3 } else { 0 },
         bare_eof: idx % 4 == 2,
         // fault-free and env scenarios: one in five reads from a chain of inner sources
         empty_fill_every: if (sub == "faultfree" || sub == "env") && idx % 5 == 3 { 2 + (idx as usize / 5) % 3 } else { 0 },
@@ -439,6 +445,7 @@ pub fn exec_scenario(prop: &str, sc: &Scenario) -> Value {
                 }
             }
             (Ok(_), Err(_)) => violations.push((format!("{prop}|par-fails|{pk}"), format!("single-thread Ok but multi-thread {pk}"))),
+            (Err(_), _) if sk != pk && !pk.starts_with("Panic") => violations.push((format!("{prop}|kind-differs|{sk}-vs-{pk}"), format!("fault-free source, refused argument: single-thread returns {sk} but multi-thread returns {pk}"))),
             _ => {}
         }
         if prop == "C05" {
@@ -636,12 +643,13 @@ pub fn run_c06(ctx: &Ctx) -> i32 {
     supervise_sub(ctx, "enum", grid, &agg);
     supervise_sub(ctx, "combo", ctx.tier.pick(480, 16_000), &agg);
     supervise_sub(ctx, "faultfree", ctx.tier.pick(480, 16_000), &agg);
+    supervise_sub(ctx, "refused", ctx.tier.pick(54, 900), &agg);
     supervise_sub(ctx, "ragged", ctx.tier.pick(240, 8000), &agg);
     supervise_sub(ctx, "env", ctx.tier.pick(136, 2720), &agg);
     let out = std::mem::take(&mut agg.lock().unwrap().out);
     let fin = Finish {
         level: "fault_enumeration",
-        rule: "'enum' enumerates F in {1,2,3,5,8,12} (thorough: {1,2,3,4,5,8,12,20}) frames x fault kind (read error at read k for every k in 0..=F; out-of-range sample at first/middle/last position of block k for every k < F) x W x schedule policy (quick: W in {1,2,3,4}, 5 policies; thorough: W in {1,2,3,4,8,16}, 8 policies); 'combo' = 2-4 random faults; 'faultfree' = no fault; 'env' = 0-2 faults with the worker count taken from FLACENC_WORKERS (17 strings incl. 0, unparsable, usize::MAX, 2^63); 'ragged' = a block that is not a whole number of inter-channel samples at a random read (judged like the other faults: same outcome kind as single-thread, return, no panic, no thread left). A quarter of the sources signal the end with a bare Ok(0) instead of an empty fill. Each scenario runs in a supervised child: the call must return (deadlock = all tasks in futex wait without CPU time/context switches for 20 samples), no thread may panic, the error kind must equal single-thread's for the same source, no helper thread may be alive at return (event log T5 + /proc/self/task), and fault-free runs satisfy T1-T4; distinct = distinct interleavings",
+        rule: "'enum' enumerates F in {1,2,3,5,8,12} (thorough: {1,2,3,4,5,8,12,20}) frames x fault kind (read error at read k for every k in 0..=F; out-of-range sample at first/middle/last position of block k for every k < F) x W x schedule policy (quick: W in {1,2,3,4}, 5 policies; thorough: W in {1,2,3,4,8,16}, 8 policies); 'combo' = 2-4 random faults; 'faultfree' = no fault (one in five from a pipe-style source: a short block between full ones); 'refused' = fault-free source and a block-size argument outside 32..=32767 (the failure is the caller's argument: same kind in both modes, no thread left or panicking afterwards); 'env' = 0-2 faults with the worker count taken from FLACENC_WORKERS (17 strings incl. 0, unparsable, usize::MAX, 2^63); 'ragged' = a block that is not a whole number of inter-channel samples at a random read (judged like the other faults: same outcome kind as single-thread, return, no panic, no thread left). A quarter of the sources signal the end with a bare Ok(0) instead of an empty fill. Each scenario runs in a supervised child: the call must return (deadlock = all tasks in futex wait without CPU time/context switches for 20 samples), no thread may panic, the error kind must equal single-thread's for the same source, no helper thread may be alive at return (event log T5 + /proc/self/task), and fault-free runs satisfy T1-T4; distinct = distinct interleavings",
         assumptions: vec!["a livelock that keeps switching context would be inconclusive (watchdog), not a violation".into()],
         exhaustive: Some(false),
         floors: vec![("scenarios that returned an error (fault manifested)".into(), out.stats.iter().filter(|(k, _)| k.starts_with("result_par_Err")).map(|(_, v)| *v).sum(), 100)],
